@@ -475,8 +475,8 @@ mod v_wire_roundtrip {
         let mut b2: [u8; 36] = kani::any();
         repr.emit(&mut Icmpv4Packet::new_unchecked(&mut b1[..]), &caps());
         repr.emit(&mut Icmpv4Packet::new_unchecked(&mut b2[..]), &caps());
-        kani::cover!(true, "emitted");
         let k = 4 + any_lt(4);
+        kani::cover!(true, "emitted");
         assert!(b1[k] == b2[k], "prop:c06_emit_independent_of_prior_buffer_contents");
     }
 
@@ -686,8 +686,8 @@ mod v_wire_roundtrip {
         let mut b2: [u8; 56] = kani::any();
         repr.emit(&src, &dst, &mut Icmpv6Packet::new_unchecked(&mut b1[..]), &caps());
         repr.emit(&src, &dst, &mut Icmpv6Packet::new_unchecked(&mut b2[..]), &caps());
-        kani::cover!(true, "emitted");
         let k = 4 + any_lt(4);
+        kani::cover!(true, "emitted");
         assert!(b1[k] == b2[k], "prop:c06_emit_independent_of_prior_buffer_contents");
     }
 
@@ -737,13 +737,18 @@ mod v_wire_roundtrip {
     fn any_router_flags() -> NdiscRouterFlags {
         NdiscRouterFlags::from_bits_truncate(kani::any())
     }
+    /// A 32-bit wire quantity that the Repr holds as a Duration: 0..=65535 or the all-ones value ("infinity").
+    /// (Duration stores microseconds; the full 32-bit range puts a 64-bit multiply/divide pair into every query.)
+    fn any_wire_u32() -> u64 {
+        if kani::any() { u32::MAX as u64 } else { kani::any::<u16>() as u64 }
+    }
     fn any_prefix_info() -> NdiscPrefixInformation {
         // lifetimes are 32-bit second counts on the wire
         NdiscPrefixInformation {
             prefix_len: kani::any(),
             flags: NdiscPrefixInfoFlags::from_bits_truncate(kani::any()),
-            valid_lifetime: Duration::from_secs(kani::any::<u32>() as u64),
-            preferred_lifetime: Duration::from_secs(kani::any::<u32>() as u64),
+            valid_lifetime: Duration::from_secs(any_wire_u32()),
+            preferred_lifetime: Duration::from_secs(any_wire_u32()),
             prefix: any_v6(),
         }
     }
@@ -829,8 +834,10 @@ mod v_wire_roundtrip {
     #[kani::proof]
     pub(crate) fn rt_icmpv6_ndisc_ns_wrapped() {
         let (src, dst) = (any_v6(), any_v6());
-        let inner = NdiscRepr::NeighborSolicit { target_addr: any_v6(), lladdr: Some(ll_eth()) };
-        let repr = Icmpv6Repr::Ndisc(inner);
+        let (target_addr, lladdr) = (any_v6(), Some(ll_eth()));
+        let inner = NdiscRepr::NeighborSolicit { target_addr, lladdr };
+        // built in one expression: moving a finished NdiscRepr into the wrapper makes CBMC lose both discriminants
+        let repr = Icmpv6Repr::Ndisc(NdiscRepr::NeighborSolicit { target_addr, lladdr });
         assert!(repr.buffer_len() == 32, "prop:c06_parse_of_emit_is_identity");
         let mut b1 = [0u8; 32];
         let mut b2: [u8; 32] = kani::any();
@@ -873,8 +880,8 @@ mod v_wire_roundtrip {
                 hop_limit: kani::any(),
                 flags: any_router_flags(),
                 router_lifetime: Duration::from_secs(kani::any::<u16>() as u64),
-                reachable_time: Duration::from_millis(kani::any::<u32>() as u64),
-                retrans_time: Duration::from_millis(kani::any::<u32>() as u64),
+                reachable_time: Duration::from_millis(any_wire_u32()),
+                retrans_time: Duration::from_millis(any_wire_u32()),
                 lladdr: $lladdr,
                 mtu: $mtu,
                 prefix_info: $prefix,
@@ -888,7 +895,7 @@ mod v_wire_roundtrip {
         ndisc_tail!(any_ra!(None, None, None), 16, k => true);
     }
 
-    // @harness props=C06 cfg=KW tier=q to=600 mem=4 unwind=20 opts=nomem covers=1 funcs=wire::ndisc::Repr::emit;wire::ndisc::Repr::parse;wire::ndisc::Repr::buffer_len;wire::ndiscoption::Repr::emit;wire::ndiscoption::Repr::parse bounds=router_advert;_ethernet_lladdr+MTU+prefix_information;_MTU_reserved_bytes_excluded_from_stale_check
+    // @harness props=C06 cfg=KW tier=q to=600 mem=4 unwind=20 opts=nomem covers=1 funcs=wire::ndisc::Repr::emit;wire::ndisc::Repr::parse;wire::ndisc::Repr::buffer_len;wire::ndiscoption::Repr::emit;wire::ndiscoption::Repr::parse bounds=router_advert;_ethernet_lladdr+MTU+prefix_information;_timers_and_lifetimes_0..=65535_or_0xffffffff;_MTU_reserved_bytes_excluded_from_stale_check
     #[kani::proof]
     pub(crate) fn rt_ndisc_ra_all() {
         ndisc_tail!(any_ra!(Some(ll_eth()), Some(kani::any()), Some(any_prefix_info())), 64, k => k < 26 || k >= 28);
@@ -978,7 +985,7 @@ mod v_wire_roundtrip {
         ndiscopt_tail!(NdiscOptionRepr::TargetLinkLayerAddr(ll_ieee()), 16, k => k < 10);
     }
 
-    // @harness props=C06 cfg=KW tier=q to=300 mem=4 unwind=20 opts=nomem covers=1 funcs=wire::ndiscoption::Repr::emit;wire::ndiscoption::Repr::parse;wire::ndiscoption::Repr::buffer_len bounds=prefix_information;_all_field_values
+    // @harness props=C06 cfg=KW tier=q to=300 mem=4 unwind=20 opts=nomem covers=1 funcs=wire::ndiscoption::Repr::emit;wire::ndiscoption::Repr::parse;wire::ndiscoption::Repr::buffer_len bounds=prefix_information;_lifetimes_0..=65535_s_or_0xffffffff;_all_other_field_values
     #[kani::proof]
     pub(crate) fn rt_ndiscopt_prefix() {
         ndiscopt_tail!(NdiscOptionRepr::PrefixInformation(any_prefix_info()), 32, k => true);
@@ -1018,8 +1025,8 @@ mod v_wire_roundtrip {
         let mut b2: [u8; 16] = kani::any();
         repr.emit(&mut NdiscOption::new_unchecked(&mut b1[..]));
         repr.emit(&mut NdiscOption::new_unchecked(&mut b2[..]));
-        kani::cover!(true, "emitted");
         let k = 10 + any_lt(6);
+        kani::cover!(true, "emitted");
         assert!(b1[k] == b2[k], "prop:c06_emit_independent_of_prior_buffer_contents");
     }
 
@@ -1032,8 +1039,8 @@ mod v_wire_roundtrip {
         let mut b2: [u8; 8] = kani::any();
         repr.emit(&mut NdiscOption::new_unchecked(&mut b1[..]));
         repr.emit(&mut NdiscOption::new_unchecked(&mut b2[..]));
-        kani::cover!(true, "emitted");
         let k = 2 + any_lt(2);
+        kani::cover!(true, "emitted");
         assert!(b1[k] == b2[k], "prop:c06_emit_independent_of_prior_buffer_contents");
     }
 
@@ -1050,8 +1057,8 @@ mod v_wire_roundtrip {
         let mut b2: [u8; 56] = kani::any();
         repr.emit(&mut NdiscOption::new_unchecked(&mut b1[..]));
         repr.emit(&mut NdiscOption::new_unchecked(&mut b2[..]));
-        kani::cover!(true, "emitted");
         let k = 52 + any_lt(4);
+        kani::cover!(true, "emitted");
         assert!(b1[k] == b2[k], "prop:c06_emit_independent_of_prior_buffer_contents");
     }
 
@@ -1159,8 +1166,9 @@ mod v_wire_roundtrip {
         let (src, dst) = (any_v6(), any_v6());
         let qrv: u8 = kani::any();
         kani::assume(qrv < 8);
-        let inner = MldRepr::Query { max_resp_code: kani::any(), mcast_addr: any_v6(), s_flag: kani::any(), qrv, qqic: kani::any(), num_srcs: kani::any(), data: &[] };
-        let repr = Icmpv6Repr::Mld(inner);
+        let (max_resp_code, mcast_addr, s_flag, qqic, num_srcs): (u16, Ipv6Address, bool, u8, u16) = (kani::any(), any_v6(), kani::any(), kani::any(), kani::any());
+        let inner = MldRepr::Query { max_resp_code, mcast_addr, s_flag, qrv, qqic, num_srcs, data: &[] };
+        let repr = Icmpv6Repr::Mld(MldRepr::Query { max_resp_code, mcast_addr, s_flag, qrv, qqic, num_srcs, data: &[] });
         assert!(repr.buffer_len() == 28, "prop:c06_parse_of_emit_is_identity");
         let mut b1 = [0u8; 28];
         let mut b2: [u8; 28] = kani::any();
@@ -1873,49 +1881,49 @@ mod v_wire_roundtrip {
         }};
     }
 
-    // @harness props=C06 cfg=KW tier=q to=300 mem=4 unwind=12 opts=nomem covers=1 funcs=wire::ieee802154::Repr::emit;wire::ieee802154::Repr::parse;wire::ieee802154::Repr::buffer_len bounds=2003_frame;_extended_dst+src;_PAN_id_compression_(what_Interface_emits)
+    // @harness props=C06 cfg=KW tier=q to=600 mem=6 unwind=12 opts=nomem covers=1 funcs=wire::ieee802154::Repr::emit;wire::ieee802154::Repr::parse;wire::ieee802154::Repr::buffer_len bounds=2003_frame;_extended_dst+src;_PAN_id_compression_(what_Interface_emits)
     #[kani::proof]
     pub(crate) fn rt_ieee802154_2003_ext_ext_comp() {
         ieee802154_rt!(version = 0, dst_ext = true, src = 2, compressed = true);
     }
 
-    // @harness props=C06 cfg=KW tier=q to=300 mem=4 unwind=12 opts=nomem covers=1 funcs=wire::ieee802154::Repr::emit;wire::ieee802154::Repr::parse;wire::ieee802154::Repr::buffer_len bounds=2006_frame;_extended_dst+src;_both_PAN_ids_(longest_header)
+    // @harness props=C06 cfg=KW tier=q to=600 mem=6 unwind=12 opts=nomem covers=1 funcs=wire::ieee802154::Repr::emit;wire::ieee802154::Repr::parse;wire::ieee802154::Repr::buffer_len bounds=2006_frame;_extended_dst+src;_both_PAN_ids_(longest_header)
     #[kani::proof]
     pub(crate) fn rt_ieee802154_2006_ext_ext_full() {
         ieee802154_rt!(version = 1, dst_ext = true, src = 2, compressed = false);
     }
 
-    // @harness props=C06 cfg=KW tier=t to=300 mem=4 unwind=12 opts=nomem covers=1 funcs=wire::ieee802154::Repr::emit;wire::ieee802154::Repr::parse bounds=2003_frame;_short_dst;_extended_src;_PAN_id_compression
+    // @harness props=C06 cfg=KW tier=t to=600 mem=6 unwind=12 opts=nomem covers=1 funcs=wire::ieee802154::Repr::emit;wire::ieee802154::Repr::parse bounds=2003_frame;_short_dst;_extended_src;_PAN_id_compression
     #[kani::proof]
     pub(crate) fn rt_ieee802154_2003_short_ext_comp() {
         ieee802154_rt!(version = 0, dst_ext = false, src = 2, compressed = true);
     }
 
-    // @harness props=C06 cfg=KW tier=t to=300 mem=4 unwind=12 opts=nomem covers=1 funcs=wire::ieee802154::Repr::emit;wire::ieee802154::Repr::parse bounds=2003_frame;_short_dst+src;_both_PAN_ids
+    // @harness props=C06 cfg=KW tier=t to=600 mem=6 unwind=12 opts=nomem covers=1 funcs=wire::ieee802154::Repr::emit;wire::ieee802154::Repr::parse bounds=2003_frame;_short_dst+src;_both_PAN_ids
     #[kani::proof]
     pub(crate) fn rt_ieee802154_2003_short_short_full() {
         ieee802154_rt!(version = 0, dst_ext = false, src = 1, compressed = false);
     }
 
-    // @harness props=C06 cfg=KW tier=t to=300 mem=4 unwind=12 opts=nomem covers=1 funcs=wire::ieee802154::Repr::emit;wire::ieee802154::Repr::parse bounds=2006_frame;_extended_dst;_short_src;_PAN_id_compression
+    // @harness props=C06 cfg=KW tier=t to=600 mem=6 unwind=12 opts=nomem covers=1 funcs=wire::ieee802154::Repr::emit;wire::ieee802154::Repr::parse bounds=2006_frame;_extended_dst;_short_src;_PAN_id_compression
     #[kani::proof]
     pub(crate) fn rt_ieee802154_2006_ext_short_comp() {
         ieee802154_rt!(version = 1, dst_ext = true, src = 1, compressed = true);
     }
 
-    // @harness props=C06 cfg=KW tier=t to=300 mem=4 unwind=12 opts=nomem covers=1 funcs=wire::ieee802154::Repr::emit;wire::ieee802154::Repr::parse bounds=2003_frame;_extended_dst;_src_absent;_PAN_id_compression_bit_set
+    // @harness props=C06 cfg=KW tier=t to=600 mem=6 unwind=12 opts=nomem covers=1 funcs=wire::ieee802154::Repr::emit;wire::ieee802154::Repr::parse bounds=2003_frame;_extended_dst;_src_absent;_PAN_id_compression_bit_set
     #[kani::proof]
     pub(crate) fn rt_ieee802154_2003_ext_absent_comp() {
         ieee802154_rt!(version = 0, dst_ext = true, src = 0, compressed = true);
     }
 
-    // @harness props=C06 cfg=KW tier=t to=300 mem=4 unwind=12 opts=nomem covers=1 funcs=wire::ieee802154::Repr::emit;wire::ieee802154::Repr::parse bounds=2015_frame;_short_dst+src;_both_PAN_ids
+    // @harness props=C06 cfg=KW tier=t to=600 mem=6 unwind=12 opts=nomem covers=1 funcs=wire::ieee802154::Repr::emit;wire::ieee802154::Repr::parse bounds=2015_frame;_short_dst+src;_both_PAN_ids
     #[kani::proof]
     pub(crate) fn rt_ieee802154_2015_short_short_full() {
         ieee802154_rt!(version = 2, dst_ext = false, src = 1, compressed = false);
     }
 
-    // @harness props=C06 cfg=KW tier=t to=300 mem=4 unwind=12 opts=nomem covers=1 funcs=wire::ieee802154::Repr::emit;wire::ieee802154::Repr::parse bounds=2015_frame;_short_dst;_extended_src;_PAN_id_compression
+    // @harness props=C06 cfg=KW tier=t to=600 mem=6 unwind=12 opts=nomem covers=1 funcs=wire::ieee802154::Repr::emit;wire::ieee802154::Repr::parse bounds=2015_frame;_short_dst;_extended_src;_PAN_id_compression
     #[kani::proof]
     pub(crate) fn rt_ieee802154_2015_short_ext_comp() {
         ieee802154_rt!(version = 2, dst_ext = false, src = 2, compressed = true);
@@ -1923,14 +1931,14 @@ mod v_wire_roundtrip {
 
     // IEEE 802.15.4-2015 table 7-2: extended+extended without compression carries the dst PAN id only, with
     // compression no PAN id at all; Repr::emit / buffer_len use the 2003 layout for every version
-    // @harness props=C06 cfg=KW tier=t kind=finding to=300 mem=4 unwind=12 opts=nomem covers=1 funcs=wire::ieee802154::Repr::emit;wire::ieee802154::Repr::parse;wire::ieee802154::Repr::buffer_len bounds=2015_frame;_extended_dst+src;_PAN_id_compression
+    // @harness props=C06 cfg=KW tier=t kind=finding to=600 mem=6 unwind=12 opts=nomem covers=1 funcs=wire::ieee802154::Repr::emit;wire::ieee802154::Repr::parse;wire::ieee802154::Repr::buffer_len bounds=2015_frame;_extended_dst+src;_PAN_id_compression
     #[kani::proof]
     pub(crate) fn finding_ieee802154_2015_ext_ext_comp() {
         ieee802154_rt!(version = 2, dst_ext = true, src = 2, compressed = true);
     }
 
     // the frame-control setters only OR bits in (set_fc_bit_field) and bits 7..9 are never written
-    // @harness props=C06 cfg=KW tier=q kind=finding to=300 mem=4 unwind=12 opts=nomem covers=1 funcs=wire::ieee802154::Repr::emit bounds=2003_frame;_extended_dst+src;_frame_control_bytes_0..2
+    // @harness props=C06 cfg=KW tier=q kind=finding to=600 mem=6 unwind=12 opts=nomem covers=1 funcs=wire::ieee802154::Repr::emit bounds=2003_frame;_extended_dst+src;_frame_control_bytes_0..2
     #[kani::proof]
     pub(crate) fn finding_ieee802154_frame_control_stale() {
         let repr = Ieee802154Repr {
@@ -2175,49 +2183,49 @@ mod v_wire_roundtrip {
         }};
     }
 
-    // @harness props=C06 cfg=KW tier=q to=300 mem=4 unwind=20 opts=nomem covers=1 funcs=wire::sixlowpan::iphc::Repr::emit;wire::sixlowpan::iphc::Repr::parse;wire::sixlowpan::iphc::Repr::buffer_len bounds=src_link-local_elided_from_extended_lladdr;_dst_ff02::XX;_next_header_compressed;_hop_limit_1|64|255
+    // @harness props=C06 cfg=KW tier=q to=600 mem=8 unwind=20 opts=nomem covers=1 funcs=wire::sixlowpan::iphc::Repr::emit;wire::sixlowpan::iphc::Repr::parse;wire::sixlowpan::iphc::Repr::buffer_len bounds=src_link-local_elided_from_extended_lladdr;_dst_ff02::XX;_next_header_compressed;_hop_limit_1|64|255
     #[kani::proof]
     pub(crate) fn rt_iphc_eui64_mcast8() {
         iphc_rt!(src = 3, dst = 6, nh_inline = false, hl_inline = false, n = 3);
     }
 
-    // @harness props=C06 cfg=KW tier=q to=300 mem=4 unwind=20 opts=nomem covers=1 funcs=wire::sixlowpan::iphc::Repr::emit;wire::sixlowpan::iphc::Repr::parse;wire::sixlowpan::iphc::Repr::buffer_len bounds=global_src_and_dst_(both_inline);_next_header_and_hop_limit_inline_(longest_header)
+    // @harness props=C06 cfg=KW tier=q to=600 mem=8 unwind=20 opts=nomem covers=1 funcs=wire::sixlowpan::iphc::Repr::emit;wire::sixlowpan::iphc::Repr::parse;wire::sixlowpan::iphc::Repr::buffer_len bounds=global_src_and_dst_(both_inline);_next_header_and_hop_limit_inline_(longest_header)
     #[kani::proof]
     pub(crate) fn rt_iphc_global_global() {
         iphc_rt!(src = 5, dst = 5, nh_inline = true, hl_inline = true, n = 36);
     }
 
-    // @harness props=C06 cfg=KW tier=t to=300 mem=4 unwind=20 opts=nomem covers=1 funcs=wire::sixlowpan::iphc::Repr::emit;wire::sixlowpan::iphc::Repr::parse bounds=unspecified_src;_dst_ffXX::XX:XXXX_(32_bits_inline);_next_header_inline
+    // @harness props=C06 cfg=KW tier=t to=600 mem=8 unwind=20 opts=nomem covers=1 funcs=wire::sixlowpan::iphc::Repr::emit;wire::sixlowpan::iphc::Repr::parse bounds=unspecified_src;_dst_ffXX::XX:XXXX_(32_bits_inline);_next_header_inline
     #[kani::proof]
     pub(crate) fn rt_iphc_unspec_mcast32() {
         iphc_rt!(src = 0, dst = 7, nh_inline = true, hl_inline = false, n = 7);
     }
 
-    // @harness props=C06 cfg=KW tier=t to=300 mem=4 unwind=20 opts=nomem covers=1 funcs=wire::sixlowpan::iphc::Repr::emit;wire::sixlowpan::iphc::Repr::parse bounds=src_and_dst_link-local_elided_from_short_lladdr;_hop_limit_inline
+    // @harness props=C06 cfg=KW tier=t to=600 mem=8 unwind=20 opts=nomem covers=1 funcs=wire::sixlowpan::iphc::Repr::emit;wire::sixlowpan::iphc::Repr::parse bounds=src_and_dst_link-local_elided_from_short_lladdr;_hop_limit_inline
     #[kani::proof]
     pub(crate) fn rt_iphc_short_short() {
         iphc_rt!(src = 1, dst = 1, nh_inline = false, hl_inline = true, n = 3);
     }
 
-    // @harness props=C06 cfg=KW tier=t to=300 mem=4 unwind=20 opts=nomem covers=1 funcs=wire::sixlowpan::iphc::Repr::emit;wire::sixlowpan::iphc::Repr::parse bounds=src_and_dst_link-local_with_16_bits_inline
+    // @harness props=C06 cfg=KW tier=t to=600 mem=8 unwind=20 opts=nomem covers=1 funcs=wire::sixlowpan::iphc::Repr::emit;wire::sixlowpan::iphc::Repr::parse bounds=src_and_dst_link-local_with_16_bits_inline
     #[kani::proof]
     pub(crate) fn rt_iphc_ll16_ll16() {
         iphc_rt!(src = 2, dst = 2, nh_inline = false, hl_inline = false, n = 6);
     }
 
-    // @harness props=C06 cfg=KW tier=t to=300 mem=4 unwind=20 opts=nomem covers=1 funcs=wire::sixlowpan::iphc::Repr::emit;wire::sixlowpan::iphc::Repr::parse bounds=src_link-local_with_64_bits_inline;_dst_link-local_elided_from_extended_lladdr
+    // @harness props=C06 cfg=KW tier=t to=600 mem=8 unwind=20 opts=nomem covers=1 funcs=wire::sixlowpan::iphc::Repr::emit;wire::sixlowpan::iphc::Repr::parse bounds=src_link-local_with_64_bits_inline;_dst_link-local_elided_from_extended_lladdr
     #[kani::proof]
     pub(crate) fn rt_iphc_ll64_eui64() {
         iphc_rt!(src = 4, dst = 3, nh_inline = true, hl_inline = false, n = 11);
     }
 
-    // @harness props=C06 cfg=KW tier=t to=300 mem=4 unwind=20 opts=nomem covers=1 funcs=wire::sixlowpan::iphc::Repr::emit;wire::sixlowpan::iphc::Repr::parse bounds=global_src;_dst_link-local_with_64_bits_inline
+    // @harness props=C06 cfg=KW tier=t to=600 mem=8 unwind=20 opts=nomem covers=1 funcs=wire::sixlowpan::iphc::Repr::emit;wire::sixlowpan::iphc::Repr::parse bounds=global_src;_dst_link-local_with_64_bits_inline
     #[kani::proof]
     pub(crate) fn rt_iphc_global_ll64() {
         iphc_rt!(src = 5, dst = 4, nh_inline = false, hl_inline = false, n = 26);
     }
 
-    // @harness props=C06 cfg=KW tier=t to=300 mem=4 unwind=20 opts=nomem covers=1 funcs=wire::sixlowpan::iphc::Repr::emit;wire::sixlowpan::iphc::Repr::parse bounds=global_src;_dst_ffXX::XX:XXXX:XXXX_(48_bits_inline)
+    // @harness props=C06 cfg=KW tier=t to=600 mem=8 unwind=20 opts=nomem covers=1 funcs=wire::sixlowpan::iphc::Repr::emit;wire::sixlowpan::iphc::Repr::parse bounds=global_src;_dst_ffXX::XX:XXXX:XXXX_(48_bits_inline)
     #[kani::proof]
     pub(crate) fn rt_iphc_global_mcast48() {
         iphc_rt!(src = 5, dst = 8, nh_inline = false, hl_inline = false, n = 24);
@@ -2225,7 +2233,7 @@ mod v_wire_roundtrip {
 
     // a multicast destination that fits none of the compressed forms is written in full (16 bytes) but flagged DAM=0b11
     // (8-bit form), so the receiver reads one byte: set_dst_address, last multicast branch
-    // @harness props=C06 cfg=KW tier=q kind=finding to=300 mem=4 unwind=20 opts=nomem covers=1 funcs=wire::sixlowpan::iphc::Repr::emit;wire::sixlowpan::iphc::Repr::parse;wire::sixlowpan::iphc::Repr::buffer_len bounds=link-local_src_elided;_dst_any_multicast_address_with_a_non-zero_third_byte
+    // @harness props=C06 cfg=KW tier=q kind=finding to=600 mem=8 unwind=20 opts=nomem covers=1 funcs=wire::sixlowpan::iphc::Repr::emit;wire::sixlowpan::iphc::Repr::parse;wire::sixlowpan::iphc::Repr::buffer_len bounds=link-local_src_elided;_dst_any_multicast_address_with_a_non-zero_third_byte
     #[kani::proof]
     pub(crate) fn finding_iphc_multicast_full() {
         iphc_rt!(src = 3, dst = 9, nh_inline = false, hl_inline = false, n = 18);
